@@ -43,7 +43,7 @@ static LOG: QuietLog = QuietLog;
 static PANIC_MSG: std::sync::Mutex<String> = std::sync::Mutex::new(String::new());
 
 /// index -> (command string, Transform.in_place, Transform.copy); same table as drv_K.ml / c12.py
-const TTABLE: [(&str, bool, bool); 13] = [
+const TTABLE: [(&str, bool, bool); 17] = [
     ("cat", false, false),
     ("head -c 3", false, false),
     ("tr a-m n-z", false, false),
@@ -57,6 +57,10 @@ const TTABLE: [(&str, bool, bool); 13] = [
     ("<none>", false, true),   // copy forced by hand (before ea68843 the id then read "<none>")
     ("sed y/abc/xyz/ $IN --in-place", false, true),
     ("sed y/abc/xyz/ $IN", true, true),
+    ("v1/vk_norm", false, false), // head -c 3   } same file name, other directory (relative to the cwd = scratch dir)
+    ("v2/vk_norm", false, false), // cat         }
+    ("head  -c 3", false, false), // = entry 1 with two blanks
+    ("cat ", false, false),       // = entry 0 with a trailing blank
 ];
 
 /// the id FileHasher::new_cached gives the configuration (used for HashCache::open by hand; the real
@@ -412,6 +416,13 @@ fn main() {
             // outputs its input, then fails iff the first byte is 'z' (hash computed, exit status != 0)
             write_helper(&bin, "vk_failz", "#!/bin/sh\nf=$(mktemp)\ncat > \"$f\"\ncat \"$f\"\nc=$(head -c1 \"$f\")\nrm -f \"$f\"\n[ \"$c\" != \"z\" ]\n");
             write_helper(&bin, "<none>", "#!/bin/sh\nexec head -c 2\n");
+            // Transform::new probes the bare file name, the run uses the path as given (relative to the cwd)
+            write_helper(&bin, "vk_norm", "#!/bin/sh\nexec head -c 3\n");
+            for (d, body) in [("v1", "#!/bin/sh\nexec head -c 3\n"), ("v2", "#!/bin/sh\nexec cat\n")] {
+                fs::create_dir_all(scratch.join(d)).unwrap();
+                write_helper(&scratch.join(d), "vk_norm", body);
+            }
+            std::env::set_current_dir(&scratch).unwrap();
             let path = std::env::var("PATH").unwrap_or_default();
             std::env::set_var("PATH", format!("{}:{}", bin.display(), path));
             std::env::set_var("LC_ALL", "C");
